@@ -2,6 +2,13 @@
 open Xdmodel_core
 open Sxlib
 
+let to_flags = function
+  | L [a; b; c; d; e; f; g] ->
+    { eLLIPSIS = to_bool a; nORMALIZE_WHITESPACE = to_bool b; iGNORE_WHITESPACE = to_bool c;
+      nORMALIZE_REPR = to_bool d; dONT_ACCEPT_BLANKLINE = to_bool e;
+      iGNORE_EXCEPTION_DETAIL = to_bool f; iGNORE_WANT = to_bool g }
+  | _ -> raise (Bad "flags")
+
 (* ---------- dispatch ---------- *)
 let dispatch_ref : (string -> sx list -> sx) ref = ref (fun _ _ -> raise (Bad "no dispatch"))
 
@@ -71,6 +78,39 @@ let dispatch (fn : string) (args : sx list) : sx =
   (* Ellipsis *)
   | "split_ell", [s] -> of_list of_str (split_ell (to_str s))
   | "ellipsis_match", [g; w] -> of_bool (ellipsis_match (to_str g) (to_str w))
+  (* Checker *)
+  | "strip_ansi", [s] -> of_str (strip_ansi (to_str s))
+  | "rm_prefix_u", [s] -> of_str (rm_prefix is_uU (to_str s))
+  | "rm_prefix_b", [s] -> of_str (rm_prefix is_bB (to_str s))
+  | "rm_blankline", [s] -> of_str (rm_blankline (to_str s))
+  | "rm_trailing_ws", [s] -> of_str (rm_trailing_ws (to_str s))
+  | "drop_cr_lines", [s] -> of_str (drop_cr_lines (to_str s))
+  | "collapse_ws", [s] -> of_str (collapse_ws (to_str s))
+  | "delete_ws", [s] -> of_str (delete_ws (to_str s))
+  | "norm_repr", [fl; a; b] -> of_str (norm_repr (to_flags fl) (to_str a) (to_str b))
+  | "normalize", [fl; g; w] -> of_pair of_str of_str (normalize (to_flags fl) (to_str g) (to_str w))
+  | "check_match", [fl; g; w] -> of_bool (check_match (to_flags fl) (to_str g) (to_str w))
+  | "check_output", [fl; g; w] -> of_bool (check_output (to_flags fl) (to_str g) (to_str w))
+  | "check_output_allflags", [g; w] ->
+    (* the verdict under all 32 settings of (ELLIPSIS, NW, IW, NR, DAB), as a bit string *)
+    let g = to_str g and w = to_str w in
+    let b = Buffer.create 32 in
+    for i = 0 to 31 do
+      let bit k = (i lsr k) land 1 = 1 in
+      let fl = { eLLIPSIS = bit 0; nORMALIZE_WHITESPACE = bit 1; iGNORE_WHITESPACE = bit 2;
+                 nORMALIZE_REPR = bit 3; dONT_ACCEPT_BLANKLINE = bit 4;
+                 iGNORE_EXCEPTION_DETAIL = false; iGNORE_WANT = false } in
+      Buffer.add_char b (if check_output fl g w then '1' else '0')
+    done;
+    A (Buffer.contents b)
+  | "strip_exception_details", [s] -> of_str (strip_exception_details (to_str s))
+  | "extract_exc_want_cb", [s] -> of_opt of_str (extract_exc_want_cb (to_str s))
+  | "check_exception_cb", [fl; g; w] -> of_opt of_bool (check_exception_cb (to_flags fl) (to_str g) (to_str w))
+  | "check_got_vs_want", [fl; w; g; ev] ->
+    let ev = (match ev with A "notevaled" -> NotEvaled | A "reprraises" -> EvalReprRaises
+                          | L [A "repr"; r] -> EvalRepr (to_str r) | _ -> raise (Bad "got_eval")) in
+    A (match check_got_vs_want (to_flags fl) (to_str w) (to_str g) ev with
+        | GW_ok -> "ok" | GW_gotwant -> "gotwant" | GW_extract_repr -> "extractrepr" | GW_repr_escapes -> "represcapes")
   | _ -> raise (Bad ("unknown function " ^ fn))
 
 
